@@ -194,6 +194,11 @@ def _drawn_shard(item):
     return part
 
 
+import re as _re
+_SCOPE_LIKE = _re.compile(r"\b(f|K)(\d+)\b")
+_SCOPE_LIKE_NAMES = ("listcomp", "genexpr", "setcomp", "dictcomp", "lambda_", "top")
+
+
 def run(report):
     quick = report.tier == "quick"
     report.rule = RULE
@@ -234,6 +239,12 @@ def run(report):
                 except SyntaxError:
                     continue
                 cases.append((src, [env.ALL_CFGS[(i + init) % 8]]))
+                if i % 3 == 0:
+                    # the same program with its functions and classes named like CPython's implicit scopes
+                    # (hosts before 3.12 recognise those scopes by name)
+                    ren = _SCOPE_LIKE.sub(lambda m: _SCOPE_LIKE_NAMES[int(m.group(2)) % len(_SCOPE_LIKE_NAMES)], src)
+                    if ren != src:
+                        cases.append((ren, [env.ALL_CFGS[(i + init + 3) % 8]]))
     nchunk = 5
     for h in others:
         for k in range(nchunk):
